@@ -55,6 +55,16 @@ func genDecoy(t *rapid.T) (string, bool) {
 	return kind, rapid.Bool().Draw(t, "decoy-first")
 }
 
+// genQueryKind draws the kind of query of one Subscribe call: the valid Stream
+// query three times in four, otherwise any kind of query.go (the refused kinds
+// doubled: what they leave behind on the client object is the point).
+func genQueryKind(t *rapid.T) string {
+	if rapid.IntRange(0, 3).Draw(t, "query-varied") != 3 {
+		return ""
+	}
+	return rapid.SampledFrom(append([]string{"once", "unknown"}, queryKinds...)).Draw(t, "query")
+}
+
 // genErrKind draws "" (the default value of the site) with probability
 // (oneIn-1)/oneIn, otherwise one of kinds.
 func genErrKind(t *rapid.T, label string, kinds []string, oneIn int) string {
@@ -82,6 +92,7 @@ func genScenario(t *rapid.T, favourDefault bool) *Scenario {
 	sc.Timeout = rapid.SampledFrom([]int{0, 0, 5, 50}).Draw(t, "timeout")
 	sc.Stop = rapid.SampledFrom([]string{"close", "close", "close", "close", "cancel"}).Draw(t, "stop")
 	sc.Decoy, sc.DecoyFirst = genDecoy(t)
+	sc.Query = genQueryKind(t)
 
 	if sc.Plain {
 		a := genAttempt(t)
@@ -266,6 +277,9 @@ func genLife(t *rapid.T) *LScenario {
 	sc.Ops = rapid.SliceOfN(rapid.Custom(func(t *rapid.T) LifeOp {
 		op := LifeOp{Kind: rapid.SampledFrom(kinds).Draw(t, "kind"), Wait: rapid.SampledFrom(waits).Draw(t, "wait")}
 		op.Cancelled = rapid.IntRange(0, 9).Draw(t, "cancelled-context") == 9 && op.Kind == "subscribe"
+		if q := genQueryKind(t); op.Kind == "subscribe" {
+			op.Query = q
+		}
 		return op
 	}), 1, 10).Draw(t, "ops")
 	// three sequences in four start with Subscribe
@@ -280,12 +294,12 @@ func genLife(t *rapid.T) *LScenario {
 	for i := range sc.Ops {
 		op := &sc.Ops[i]
 		if op.Kind == "subscribe" && open && !sc.Plain {
-			op.Kind = "cancel"
+			op.Kind, op.Query = "cancel", ""
 		}
 		op.Cancelled = op.Cancelled && op.Kind == "subscribe"
 		switch op.Kind {
 		case "subscribe":
-			open = !closed && !op.Cancelled
+			open = !closed && !op.Cancelled && !queryRefused(op.Query, sc.Plain, sc.Client == "cache")
 		case "cancel":
 			open = false
 		case "close":
